@@ -227,3 +227,18 @@ func checkC17(c *Ctx) {
 	c.floor("T-TABLE(FiltersEqual)", 3, "nil/nil, one nil, comparable, not comparable")
 	c.floor("T-TABLE(compareFilterList)", 5, "length check + 5 cases")
 }
+
+func init() {
+	props = append(props, propSpec{ID: "C19", Level: "other", Run: checkC19,
+		Explanation: "Sibling-shape comparison of the seven PodsFilter functions against one reference shape (sorted copy of the sources with the (namespace,name) comparator; per source exactly one element And(NSName(<that source's namespace>,\"\"), selector-or-template-fallback); result Or over all elements), the ingress services filter (default backend and every rule path of every ingress contribute (ingress namespace, service name), ingresses contribute independently, no early exit), and the node / involved-object / selector-match filters (comma-ok kind guard, exact field pairing).",
+		Assumptions: []string{"label-selector matching itself is delegated (C18)"}})
+}
+
+func checkC19(c *Ctx) {
+	checkPodsFilters(c)
+	checkIngressFilter(c)
+	checkKindFilters(c)
+	c.floor("T-SHAPE(PodsFilter)", 35, "7 siblings x 5 obligations")
+	c.floor("T-SHAPE(ServicesFilter)", 5, "default backend, paths table, rules, ServicesFilter")
+	c.floor("T-SHAPE(kind-filter)", 5, "node x2, involved x2, selector-match")
+}
